@@ -935,6 +935,7 @@ let () =
          run_positions s r corpus { none with p_state = true; p_maketext = true; depth = 40; undo_pct = 4; null_pct = 4 } 3000 100000
                     ~extra:(tagged "castling_family" (castling_family r (400 / !nshards)) @ tagged "promo_family" (promo_family r (300 / !nshards))) ()
        | "C03" ->
+         run_scripts s r { none with p_state = true; p_fen = true } [ "fullmove_wrap"; "fullmove_wrap_white" ];
          run_scripts s r { none with p_state = true; p_hist = true } [ "very_long_history"; "fullmove_zero"; "fullmove_wrap"; "fullmove_wrap_white"; "move_from_own_history"; "king_takes_castling_rook"; "king_takes_castling_rook_black" ];
          run_positions s r corpus { none with p_state = true; p_hist = true; p_moves = true; depth = 120; undo_pct = 30; null_pct = 6 } 800 20000
            ~extra:(hash_sentinel_starts s r) ()
